@@ -178,17 +178,48 @@ def rule_m3(chk: Check, mach) -> None:
                 chk.finding("M3", fi.key, "consult-arity", "the chain is consulted with fewer than (url, address, fingerprint)", fi.loc(c))
                 chk.ob("M3", f"{fi.key}: consultation arguments", False)
                 continue
-            # arg0: <request>.normalized_url / raw_url where request came from *.from_line(...)
+            # arg0: the URL of the parsed request, denoting the same path the handler
+            # acts on: <req>.parsed_url.normalized, or <req>.normalized_url where that
+            # property of the request's class returns exactly parsed_url.normalized
             a0 = args[0]
             ok0 = False
-            if isinstance(a0, ast.Attribute) and a0.attr in ("normalized_url", "raw_url"):
-                leaves = origins(defs, node, a0.value) if isinstance(a0.value, ast.Name) else [(node, a0.value)]
-                ok0 = bool(leaves) and all(
-                    (isinstance(le, ast.Call) and method_call(le) and method_call(le)[1] == "from_line") or dotted(le) == "self.titan_request"
-                    for _, le in leaves
-                )
+            why0 = f"the chain is consulted with `{norm(a0)}`, not the URL of the parsed request"
+            d0 = dotted(a0) or ""
+            base_expr = None
+            if d0.endswith(".parsed_url.normalized"):
+                base_expr = a0.value.value  # type: ignore[attr-defined]
+                prop_ok = True
+            elif isinstance(a0, ast.Attribute) and a0.attr == "normalized_url":
+                base_expr = a0.value
+                prop_ok = None
+            else:
+                prop_ok = False
+            if base_expr is not None:
+                leaves = origins(defs, node, base_expr) if isinstance(base_expr, ast.Name) else [(node, base_expr)]
+                classes = set()
+                src_ok = bool(leaves)
+                for _, le in leaves:
+                    if isinstance(le, ast.Call) and method_call(le) and method_call(le)[1] == "from_line":
+                        classes.add(dotted(method_call(le)[0]))
+                    elif dotted(le) and (dotted(le) or "").startswith("self."):
+                        from ..cfg import Resolver
+
+                        for t in Resolver(chk.proj).receiver_types(fi, le):
+                            classes.add(t.split(".")[-1])
+                    else:
+                        src_ok = False
+                if prop_ok is None:
+                    prop_ok = bool(classes)
+                    for cname in classes:
+                        rc = chk.proj.class_of_type(fi.module, cname) or next((c for c in chk.proj.classes.values() if c.name == cname), None)
+                        pm = chk.proj.find_method(rc, "normalized_url") if rc is not None else None
+                        rets = [r for r in walk(pm.node) if isinstance(r, ast.Return)] if pm is not None else []
+                        if not (rets and all(dotted(r.value) == "self.parsed_url.normalized" for r in rets)):
+                            prop_ok = False
+                            why0 = f"the chain is consulted with `{norm(a0)}`: {cname}.normalized_url is not the plain normalised URL (it carries request parameters), so path rules are matched against something other than the location the handler acts on"
+                ok0 = src_ok and bool(prop_ok)
             if not ok0:
-                chk.finding("M3", fi.key, f"consult-url:{norm(a0)}", f"the chain is consulted with `{norm(a0)}`, not the URL of the parsed request", fi.loc(c))
+                chk.finding("M3", fi.key, f"consult-url:{norm(a0)}", why0, fi.loc(c))
             # arg1: peer address
             ok1 = True
             for _, le in origins(defs, node, args[1]):
